@@ -41,6 +41,12 @@
 //!                the writer records one more value (record() returns before the snapshot goes on), so no push
 //!                overlaps the drain (strict).
 //!             B-free  a writer records while another thread keeps snapshotting (not strict: see DrainOK).
+//!        describes --names K --threads T --out F
+//!             concurrent describe_* calls on ONE recorder: for each of K fresh names T threads, released together by
+//!             a spin barrier, call describe_<kind>(name, unit_t, description_t) once (variants: exactly one thread
+//!             gives a unit; two threads give different units; all the same description; nobody gives a unit);
+//!             then one thread registers every name and takes one snapshot.  Per name a `descr` event logs the calls
+//!             and the (unit, description) shown; TLC decides that it is the outcome of some sequential order.
 use metrics::{Counter, Gauge, Histogram, Key, KeyName, Label, Level, Metadata, Recorder, SharedString, Unit};
 use metrics_util::debugging::{DebugValue, DebuggingRecorder, Snapshotter};
 use metrics_util::MetricKind;
@@ -954,6 +960,95 @@ fn drains_cf05a(rounds: usize, listed: bool, rng: &mut StdRng, out: &mut Writer,
     }
 }
 
+// ------------------------------------------------------------------------------------------------ concurrent describes
+fn run_describes(names: usize, threads: usize, base: usize, rng: &mut StdRng, out: &mut Writer) -> (usize, usize) {
+    // plan: calls[name][t] = (unit id, description id); description id d <-> text "desc-d"
+    let kinds = ["c", "g", "h"];
+    let mut plan: Vec<Vec<(i64, i64)>> = vec![];
+    for i in 0..names {
+        let u1: i64 = rng.random_range(1..=3);
+        let u2: i64 = 1 + (u1 % 3);
+        let who: usize = rng.random_range(0..threads); // the thread that carries the unit
+        let who2: usize = (who + 1 + rng.random_range(0..threads - 1)) % threads;
+        let calls: Vec<(i64, i64)> = (0..threads)
+            .map(|t| {
+                let d = (t + 1) as i64;
+                match (base + i) % 5 {
+                    0 | 1 => (if t == who { u1 } else { 0 }, d),
+                    2 => (if t == who { u1 } else if t == who2 { u2 } else { 0 }, d),
+                    3 => (if t == who { u1 } else { 0 }, 1),
+                    _ => (0, d),
+                }
+            })
+            .collect();
+        plan.push(calls);
+    }
+    let rec = DebuggingRecorder::new();
+    let starts: Vec<AtomicUsize> = (0..names).map(|_| AtomicUsize::new(0)).collect();
+    let panics = AtomicUsize::new(0);
+    std::thread::scope(|sc| {
+        for t in 0..threads {
+            let (rec, starts, plan, panics) = (&rec, &starts, &plan, &panics);
+            sc.spawn(move || {
+                for i in 0..names {
+                    let (u, d) = plan[i][t];
+                    // strings are built before the barrier, owned or static by thread parity
+                    let name = format!("dn{}", base + i);
+                    let desc = format!("desc-{}", d);
+                    let kn: KeyName = KeyName::from(name);
+                    let ds: SharedString = SharedString::from(desc);
+                    let unit = unit_of(u);
+                    starts[i].fetch_add(1, AO::AcqRel);
+                    spin_until(&starts[i], threads, None);
+                    let r = catch_unwind(AssertUnwindSafe(|| match kinds[(base + i) % 3] {
+                        "c" => rec.describe_counter(kn, unit, ds),
+                        "g" => rec.describe_gauge(kn, unit, ds),
+                        _ => rec.describe_histogram(kn, unit, ds),
+                    }));
+                    if r.is_err() {
+                        panics.fetch_add(1, AO::Relaxed);
+                    }
+                }
+            });
+        }
+    });
+    // quiescence: register every name (its kind only) and take one snapshot
+    for i in 0..names {
+        let key = Key::from_name(format!("dn{}", base + i));
+        match kinds[(base + i) % 3] {
+            "c" => drop(rec.register_counter(&key, &META)),
+            "g" => drop(rec.register_gauge(&key, &META)),
+            _ => drop(rec.register_histogram(&key, &META)),
+        }
+    }
+    let mut shown: HashMap<String, (i64, i64)> = HashMap::new();
+    let snap = catch_unwind(AssertUnwindSafe(|| rec.snapshotter().snapshot().into_vec())).unwrap_or_default();
+    for (ck, unit, desc, _) in snap {
+        let d = match &desc {
+            None => 0,
+            Some(s) => s.strip_prefix("desc-").and_then(|x| x.parse::<i64>().ok()).unwrap_or(99),
+        };
+        shown.insert(format!("{}:{}", kind_str(ck.kind()), ck.key().name()), (unit_id(&unit), d));
+    }
+    let mut bad = 0;
+    for i in 0..names {
+        let k = kinds[(base + i) % 3];
+        let (su, sd) = shown.get(&format!("{}:dn{}", k, base + i)).cloned().unwrap_or((-1, -1));
+        let calls: Vec<Value> = plan[i].iter().map(|(u, d)| json!({"u": u, "d": d})).collect();
+        // harness-side tally (information only): a unit was given but none / a foreign one is shown
+        let given: Vec<i64> = plan[i].iter().map(|c| c.0).filter(|u| *u != 0).collect();
+        if (given.is_empty() && su != 0) || (!given.is_empty() && !given.contains(&su)) {
+            bad += 1;
+        }
+        out.put(&json!({"ev": "reset", "recs": 1, "w": 1_000_000}));
+        out.put(&json!({"ev": "descr", "k": k, "name": base + i, "calls": calls, "shown": {"u": su, "d": sd}}));
+    }
+    if panics.load(AO::Relaxed) > 0 {
+        out.put(&json!({"ev": "panic", "r": 1, "op": "describe thread", "count": panics.load(AO::Relaxed)}));
+    }
+    (2 * names, bad)
+}
+
 fn program_fingerprint(p: &Value) -> String {
     // what was asked of the recorders (not how keys were built)
     p["ops"].as_array().unwrap().iter().map(|o| format!("{}{}{}{}{}{}{}{}{};", o["ev"].as_str().unwrap(), o["r"], o["k"], o["n"], o["l"], o["u"], o["d"], o["op"], o["v"])).collect()
@@ -1050,8 +1145,23 @@ fn main() {
                                   "gate_timeouts": ds.gate_timeouts, "bad_shape": ds.bad_shape}));
             return;
         }
+        "describes" => {
+            let names: usize = args.num("names", 3000);
+            let threads: usize = args.num("threads", 4).max(2);
+            let (mut ev, mut bad, mut done) = (0, 0, 0);
+            while done < names {
+                let k = 500.min(names - done);
+                let (e, b) = run_describes(k, threads, done, &mut rng, &mut w);
+                ev += e;
+                bad += b;
+                done += k;
+            }
+            w.finish();
+            println!("{}", json!({"mode": mode, "seed": seed, "names": names, "threads": threads, "events": ev, "names_with_wrong_unit": bad}));
+            return;
+        }
         _ => {
-            eprintln!("usage: c19 record|replay|rounds|drains ...");
+            eprintln!("usage: c19 record|replay|rounds|drains|describes ...");
             std::process::exit(2);
         }
     }
